@@ -163,6 +163,19 @@ func Search(f frac.Fraction, p processor.SearchParams) (*seq.QPR, error) {
 	return dp.Search(p)
 }
 
+// SearchCtx / FetchCtx: the same with the caller's context (the store code polls ctx.Done() between its steps).
+func SearchCtx(ctx context.Context, f frac.Fraction, p processor.SearchParams) (*seq.QPR, error) {
+	dp, rel := f.DataProvider(ctx)
+	defer rel()
+	return dp.Search(p)
+}
+
+func FetchCtx(ctx context.Context, f frac.Fraction, ids []seq.ID) ([][]byte, error) {
+	dp, rel := f.DataProvider(ctx)
+	defer rel()
+	return dp.Fetch(ids)
+}
+
 func Fetch(f frac.Fraction, ids []seq.ID) ([][]byte, error) {
 	dp, rel := f.DataProvider(context.Background())
 	defer rel()
